@@ -7,7 +7,7 @@
    differs from the amount's (exchange() then leaves the balance alone); two_entries: the
    balance has exactly two commodity entries (the implied-rate branch, stated separately). *)
 From LedgerV Require Import Base.Prelude Base.Round Model.Amount Model.Xact
-  Proofs.AmountProofs Proofs.XactProofs.
+  Proofs.AmountProofs Proofs.XactProofs Proofs.GainLossProofs.
 From Coq Require Import Qabs.
 Local Open Scope Q_scope.
 
@@ -129,3 +129,19 @@ Proof.
   exists (Some [36%Z]). split; [vm_compute; reflexivity|]. vm_compute. discriminate.
 Qed.
 Print Assumptions accepted_need_not_balance_exactly_refuted.
+
+(* "(virtual) postings need not balance": the balance a transaction is judged on - the scan over the postings and the
+   gain/loss pass - is the same with or without the postings that do not have to balance; whether an elided amount was
+   met is decided by the balancing postings alone *)
+Theorem nonbalancing_postings_play_no_part_in_the_scan : forall ord ps i i' bal nul nul' b n,
+  same_presence nul nul' ->
+  scan_posts ord ps i bal nul = Ok (b, n) ->
+  exists n', scan_posts ord (filter must_balance ps) i' bal nul' = Ok (b, n') /\ same_presence n n'.
+Proof. exact scan_posts_skips_nonbalancing. Qed.
+Print Assumptions nonbalancing_postings_play_no_part_in_the_scan.
+
+Theorem nonbalancing_postings_play_no_part_in_gain_loss : forall ord cp ps bal ps' bal',
+  exchange_posts ord cp ps bal = Ok (ps', bal') ->
+  exists ps'', exchange_posts ord cp (filter must_balance ps) bal = Ok (ps'', bal').
+Proof. exact exchange_posts_skips_nonbalancing. Qed.
+Print Assumptions nonbalancing_postings_play_no_part_in_gain_loss.
